@@ -349,7 +349,14 @@ def step(w, op, judged):
             diff = dict((k, dict(before=before[k], after=after[k])) for k in before if before[k] != after[k])
             raise Failure(exp['clause'], dict(op=op, outcome=_exc(raised) if raised is not None else 'no exception', changed=diff),
                           'the model is exactly as before the call')
-    w.judge(after, exp['clause'])
+    try:
+        w.judge(after, exp['clause'])
+    except Failure as f:
+        if f.clause == 'only-live-reachable':
+            # the bare clause name is kept for a relate that was handed a deleted instance (judged above); a deleted instance that
+            # is (still) reachable after any other call is named after that call, so that the two are counted separately
+            f.clause = 'only-live-reachable:after-%s' % op[0]
+        raise
 
 
 _PROGRESS = [0]
@@ -420,11 +427,19 @@ def _initial_labels(shape):
     return out
 
 
-def alphabets(shape):
+def alphabets(shape, extra=0):
     """(main, invalid): main = every relate/unrelate that addresses an association (both argument orders, every fitting
     phrase; the association id as int in one order and as 'R<n>' in the other), every delete, one new per class;
-    invalid = calls that address no association (unknown id, wrong/missing phrase, kinds that are not associated)."""
+    invalid = calls that address no association (unknown id, wrong/missing phrase, kinds that are not associated).
+    extra: the labels of that many instances per class made by 'new' operations take part as well."""
     labels = _initial_labels(shape)
+    if extra:
+        count = {}
+        for _, k in labels:
+            count[k] = count.get(k, 0) + 1
+        for k in shape.kinds():
+            for j in range(extra):
+                labels.append(('%s%d' % (shape.prefix[k], count.get(k, 0) + 1 + j), k))
     kind = dict(labels)
     main, invalid = [], []
     phrases = sorted(set([a.sphrase for a in shape.assocs] + [a.tphrase for a in shape.assocs]))
@@ -500,12 +515,11 @@ def _plan(ctx):
     big = ['reflexive-one', 'reflexive-many', 'assoc-class', 'assoc-class-phrases']
     plan = []
     for name in two + rest2:
-        plan.append((name, 3, 'anywhere', False))
+        plan.append((name, 3, 'anywhere' if (not ctx.quick or name in ('one-one-c', 'many-one')) else 'last', False))
     for name in big:
         plan.append((name, 3, 'last', False))
     if ctx.quick:
-        for name in ['many-one', 'one-one-c', 'subsuper']:
-            plan.append((name, 4, 'nowhere', False))
+        plan.append(('many-one', 4, 'nowhere', True))
     else:
         for name in two + rest2:
             plan.append((name, 4, 'anywhere', False))
@@ -534,17 +548,20 @@ def _sequences(main, invalid, depth, where):
             yield idx
 
 
-@item('histories',
-      stands_in_for=['xtuml.meta.relate', 'xtuml.meta.unrelate', 'xtuml.meta.delete', 'xtuml.meta.MetaClass.delete', 'xtuml.meta._find_link',
+_HISTORIES = dict(stands_in_for=['xtuml.meta.relate', 'xtuml.meta.unrelate', 'xtuml.meta.delete', 'xtuml.meta.MetaClass.delete', 'xtuml.meta._find_link',
                      'xtuml.meta.Link.connect', 'xtuml.meta.Link.disconnect', 'xtuml.meta.Link.navigate', 'xtuml.meta.Association.formalize'],
       bound='10 association shapes (1:1, 1C:1C, MC:1C, M:1, 1C:MC, reflexive 1C:1C and MC:1C with phrases, association class with two '
             'formalizations without and with phrases, two subtypes of one supertype); pools 2+2 (reflexive 3, association class 2+1+2); operations: '
             'every relate/unrelate that addresses an association (both argument orders, id as int and as string, every fitting phrase), every delete, '
             'one new per class (at most one extra instance per class), 8-10 calls addressing no association (unknown id, wrong/missing phrase, '
-            'unassociated kinds).  quick: all histories of length<=3 on every shape (unknown-link calls anywhere on the two-class shapes, as last call elsewhere), '
-            'length 4 without unknown-link calls on 1C:1C, MC:1C, subtype; thorough: length<=4 on every shape (unknown-link calls anywhere on the two-class '
+            'unassociated kinds).  quick: all histories of length<=3 on every shape (unknown-link calls anywhere on 1C:1C and MC:1C, as last call elsewhere), '
+            'length 4 without unknown-link calls and up to renaming of instances within a class on MC:1C (deletes followed by further calls: item delete-scenarios); thorough: length<=4 on every shape (unknown-link calls anywhere on the two-class '
             'shapes; elsewhere as last call and up to renaming of instances within a class) and length 5 on 1C:1C, MC:1C, 1C:MC, subtype without unknown-link calls and up to renaming of instances within a class',
-      shards=14, weight=6)
+      weight=6)
+
+
+@item('histories', shards=6, tiers=('quick',), **_HISTORIES)
+@item('histories', shards=8, tiers=('thorough',), **_HISTORIES)
 def histories(ctx):
     i = -1
     reported = {}
@@ -591,35 +608,204 @@ def histories(ctx):
 
 
 # ----------------------------------------------------------------------------------------------------------------------
+# delete scenarios: every link state, then delete (and delete again) of every instance, then further calls
+# ----------------------------------------------------------------------------------------------------------------------
+def _labels_of(op):
+    return op[1:3] if op[0] in ('relate', 'unrelate') else (op[1:2] if op[0] == 'delete' else [])
+
+
+def link_states(shape, max_relates):
+    """Every link state that successful relate calls can build on the initial pool with at most max_relates calls (computed on
+    the oracle alone), each with two histories that build it: one found breadth first in alphabet order and its twin in which
+    every relate is written the other way round (other argument order, other phrase, id as string instead of int)."""
+    w = World(shape)
+    main, _ = alphabets(shape)
+    relates = [op for op in main if op[0] == 'relate']
+    twin = {}
+    for op in relates:
+        r = w.resolve(*op[1:])
+        for other in relates:
+            if other is not op and w.resolve(*other[1:]) == r:
+                twin[tuple(op)] = other
+    empty = tuple(frozenset() for _ in shape.assocs)
+    seen = {empty: []}
+    frontier = [empty]
+    for _ in range(max_relates):
+        nxt = []
+        for st in frontier:
+            for op in relates:
+                w.pairs = [set(ps) for ps in st]
+                exp = w.expect(op)
+                if exp['clause'] != 'relate-links-the-pair':
+                    continue
+                exp['apply']()
+                st2 = tuple(frozenset(ps) for ps in w.pairs)
+                if st2 not in seen:
+                    seen[st2] = seen[st] + [op]
+                    nxt.append(st2)
+        frontier = nxt
+    out = []
+    for st, path in seen.items():
+        out.append((path, True))
+        mirrored = [twin.get(tuple(op), op) for op in reversed(path)]
+        w.pairs = [set() for _ in shape.assocs]
+        ok = True
+        for op in mirrored:       # the reversed order of calls must be acceptable as well (it is for every shape here)
+            exp = w.expect(op)
+            if exp['clause'] != 'relate-links-the-pair':
+                ok = False
+                break
+            exp['apply']()
+        if ok and mirrored != path and tuple(frozenset(ps) for ps in w.pairs) == st:
+            out.append((mirrored, False))
+    return out
+
+
+def delete_scenarios(shape, max_relates, tail, quick):
+    """Histories P + D + T: P builds a link state (link_states), D deletes one instance or two (every ordered pair, so also the
+    same instance twice), T is every sequence of at most `tail` further calls over relate/unrelate/delete/new on the pool plus
+    one instance per class made by a 'new' within T (labels of instances that do not exist yet are left out); calls addressing no
+    association only as the last call.  Every prefix is enumerated, so only the last call of a history needs judging.
+    Yields (length of T, history)."""
+    labels = [l for l, _ in _initial_labels(shape)]
+    main, invalid = alphabets(shape, extra=1)
+    initial = set(labels)
+    states = link_states(shape, max_relates)
+    for path, first in states:
+        for d in [[x] for x in labels] + [[x, y] for x in labels for y in labels]:
+            head = path + [['delete', x] for x in d]
+            yield 0, head
+            if tail < 1:
+                continue
+            # a single delete gets the long tails (quick: delete of a linked instance, on the first of the two histories of a state of <= 2 links); after two deletes one further call
+            linked = set(l for op in path for l in op[1:3])
+            deep = tail if (len(d) == 1 and (not quick or (first and len(path) <= 2 and d[0] in linked))) else 1
+            if quick and len(d) == 2 and (not first or d[0] != d[1]):
+                continue        # quick: after two deletes a further call only when they were a repeated delete (first history of the state)
+
+            def tails(prefix, made, depth):
+                for op in main + (invalid if (depth == 0 or not quick) else []):
+                    if op[0] == 'new':
+                        if op[1] in made:
+                            continue
+                    elif any(l not in initial and l.rstrip('0123456789') not in [shape.prefix[k] for k in made] for l in _labels_of(op)):
+                        continue
+                    seq = prefix + [op]
+                    yield seq
+                    if depth + 1 < deep and op in main:
+                        if quick and op[0] not in ('relate', 'new'):
+                            continue        # quick: longer tails continue after relate / new calls only
+                        for t in tails(seq, made + [op[1]] if op[0] == 'new' else made, depth + 1):
+                            yield t
+            for t in tails([], [], 0):
+                yield len(t), head + t
+
+
+_DELETE_SCENARIOS = dict(stands_in_for=['xtuml.meta.delete', 'xtuml.meta.MetaClass.delete', 'xtuml.meta.Link.disconnect', 'xtuml.meta.Link.navigate', 'xtuml.meta.relate',
+                     'xtuml.meta.unrelate'],
+      bound='on each of the 10 association shapes: every link state that <= 3 successful relate calls build on the pool, built in two ways '
+            '(argument order / phrase / id spelling mirrored); then delete of every instance, or of every ordered pair of instances (also the same one '
+            'twice: repeated delete); then every sequence of <= 2 further calls (after two deletes: 1; quick: only after a repeated delete) over relate/unrelate (both argument orders, every '
+            'phrase)/delete/new, the instance made by a new taking part, calls addressing no association as last call (quick: a second further call only '
+            'after a relate or new that follow the delete of a linked instance, on one of the two ways of building a state of <= 2 links); navigation in both directions from every instance (deleted ones too), pools and referential attributes '
+            'judged after the last call of every history',
+      weight=6)
+
+
+@item('delete-scenarios', shards=8, tiers=('quick',), **_DELETE_SCENARIOS)
+@item('delete-scenarios', shards=6, tiers=('thorough',), **_DELETE_SCENARIOS)
+def delete_scenarios_item(ctx):
+    i = -1
+    reported = set()
+    timeouts = 0
+    # breadth first: the histories with at most one further call on every shape, then the ones with two
+    for name, want in [(n, (0, 1)) for n in sorted(SHAPES)] + [(n, (2,)) for n in sorted(SHAPES)]:
+        shape = SHAPES[name]
+        for tlen, ops in delete_scenarios(shape, 3, 2, ctx.quick):
+            if tlen not in want:
+                continue
+            i += 1
+            if i % ctx.nshards != ctx.shard:
+                continue
+            if (i // ctx.nshards) % 64 == 0 and ctx.expired():
+                ctx.exhausted = False
+                return
+            case = dict(shape=name, ops=ops)
+            f = run_case(case, False)
+            if f == 'skip':
+                continue
+            ctx.case(key=None, nontrivial=len(ctx.keys) < KEY_CAP, sample=case if len(ctx.samples) < 2 and len(ops) >= 4 else None)
+            if f is None:
+                continue
+            if f.clause != 'bounded-time':
+                # the shortest prefix that fails when every call is judged is what gets reported (once)
+                g = run_case(case, True)
+                if g is not None and g != 'skip' and g.clause != 'bounded-time':
+                    case, f = dict(case, ops=ops[:_PROGRESS[0] + 1]), g
+                key = (f.clause, repr(case['ops']))
+                if key in reported:
+                    continue
+                reported.add(key)
+            ctx.check(False, clause=f.clause, input=case, observed=f.observed, required=f.required)
+            if f.clause == 'bounded-time':
+                timeouts += 1
+                if timeouts >= 3:
+                    ctx.exhausted = False
+                    ctx.note('enumeration stopped after 3 cases that ran into the CPU limit')
+                    return
+    ctx.exhausted = True
+
+
+# ----------------------------------------------------------------------------------------------------------------------
 # random long histories (pools grow by 'new' and the new instances take part)
 # ----------------------------------------------------------------------------------------------------------------------
 def _random_history(rng, shape, length):
-    """Operations over labels that exist at that point of the history (up to 4 instances per class)."""
+    """Operations over labels that exist at that point of the history (up to 3 more instances per class).  The generator keeps
+    its own list of the labels it has deleted: calls use instances that are still there, 1.5% of them name a deleted one."""
     count = {}
     labels = []
     for kind in shape.pool:
         count[kind] = count.get(kind, 0) + 1
         labels.append(('%s%d' % (shape.prefix[kind], count[kind]), kind))
     added = {}
+    gone = set()
     phrases = sorted(set([a.sphrase for a in shape.assocs] + [a.tphrase for a in shape.assocs]))
+
+    def pick(kind=None):
+        cands = [l for l, k in labels if kind is None or k == kind]
+        live = [l for l in cands if l not in gone]
+        return rng.choice(live or cands)
     ops = []
     for _ in range(length):
         r = rng.random()
-        if r < 0.08:
+        if r < 0.10:
             kind = rng.choice(shape.kinds())
-            if added.get(kind, 0) < 2:
+            if added.get(kind, 0) < 3:
                 added[kind] = added.get(kind, 0) + 1
                 count[kind] = count.get(kind, 0) + 1
                 labels.append(('%s%d' % (shape.prefix[kind], count[kind]), kind))
                 ops.append(['new', kind])
                 continue
-        if r < 0.18:
-            ops.append(['delete', rng.choice(labels)[0]])
+        if r < 0.17:
+            l = rng.choice(sorted(gone)) if (gone and rng.random() < 0.15) else pick()       # 15%: a repeated delete
+            gone.add(l)
+            ops.append(['delete', l])
             continue
         verb = 'relate' if r < 0.68 else 'unrelate'
         a = rng.choice(shape.assocs)
-        src = rng.choice([l for l, k in labels if k == a.src])
-        tgt = rng.choice([l for l, k in labels if k == a.tgt])
+        short = [k for k in (a.src, a.tgt) if not [l for l, kk in labels if kk == k and l not in gone]]
+        if short and added.get(short[0], 0) < 3:
+            # nothing of that class is left: make a new instance instead
+            kind = short[0]
+            added[kind] = added.get(kind, 0) + 1
+            count[kind] = count.get(kind, 0) + 1
+            labels.append(('%s%d' % (shape.prefix[kind], count[kind]), kind))
+            ops.append(['new', kind])
+            continue
+        if short:
+            continue        # nothing left to relate on that association
+        src = pick(a.src)
+        tgt = pick(a.tgt)
         rel = rng.choice([a.rel, int(a.rel[1:])])
         if rng.random() < 0.5:
             op = [verb, src, tgt, rel, a.sphrase]
@@ -631,7 +817,12 @@ def _random_history(rng, shape, length):
         elif x < 0.08:
             op[4] = rng.choice([p for p in phrases + ['zz'] if p != op[4]] or ['zz'])
         elif x < 0.10:
-            op[2] = rng.choice(labels)[0]
+            op[2] = pick()
+        elif x < 0.115 and gone:
+            dead = sorted(gone)
+            j = rng.choice((1, 2))
+            same = [l for l in dead if l.rstrip('0123456789') == op[j].rstrip('0123456789')]
+            op[j] = rng.choice(same or dead)
         ops.append(op)
     return ops
 
@@ -640,7 +831,7 @@ def _run_long(case):
     """Every step judged.  Returns (failure or None, index of the failing step)."""
     try:
         w = World(SHAPES[case['shape']])
-        w.shape = Shape(w.shape.name, w.shape.classes, w.shape.ids, w.shape.assocs, w.shape.pool, w.shape.prefix, extra_new=2)
+        w.shape = Shape(w.shape.name, w.shape.classes, w.shape.ids, w.shape.assocs, w.shape.pool, w.shape.prefix, extra_new=3)
         w.judge(w.snapshot(), 'initial-model-is-unlinked')
     except Failure as f:
         return f, -1
@@ -665,7 +856,7 @@ def _replay_long(case):
 run_long = _guarded(lambda case, _every=True: _replay_long(case))
 
 
-def _shrink(case, clause, seconds=8.0):
+def _shrink(case, clause, seconds=3.0):
     import time
     stop = time.time() + seconds
     ops = list(case['ops'])
@@ -686,40 +877,52 @@ def _shrink(case, clause, seconds=8.0):
 
 
 @item('random-long', stands_in_for=['xtuml.meta.relate', 'xtuml.meta.unrelate', 'xtuml.meta.delete', 'xtuml.meta.MetaClass.delete'],
-      bound='random histories of 60 operations on every shape, instances made by new take part (up to 2 more per class), 10% of the calls address no '
-            'association; every step judged; quick 30 histories per shard, thorough until the time share ends (<= 5000 per shard)',
+      bound='random histories of <= 60 operations on every shape: 10% new (up to 3 more instances per class, they take part), 7% delete, relate/unrelate '
+            'in both argument orders mostly on instances not deleted before (1.5% of the calls name a deleted one), 10% of the calls address no association; every step judged; '
+            'after a violation the history is continued without the violating call (at most 4 times); quick 400 histories per shard, thorough until the '
+            'time share ends (<= 5000 per shard)',
       shards=2, weight=1)
 def random_long(ctx):
     names = sorted(SHAPES)
-    n = 30 if ctx.quick else 5000
+    n = 400 if ctx.quick else 5000
     done = failures = 0
+    stop = False
     for k in range(n):
-        if ctx.expired():
+        if ctx.expired() or stop:
             break
-        shape = SHAPES[names[k % len(names)]]
+        shape = SHAPES[names[(k * ctx.nshards + ctx.shard) % len(names)]]
         case = dict(shape=shape.name, long=True, ops=_random_history(ctx.rng, shape, 60))
         ctx.case(key=None, nontrivial=True, sample=dict(case, ops=case['ops'][:5]) if k == 0 else None)
         done += 1
-        if _HANDLER:
-            signal.setitimer(signal.ITIMER_VIRTUAL, 20.0)
-        try:
-            f, at = _run_long(case)
-            if f is not None:
-                small = _shrink(dict(case, ops=case['ops'][:at + 1]), f.clause)
-                f2 = _replay_long(small)
-                if f2 is None:
-                    small, f2 = dict(case, ops=case['ops'][:at + 1]), f
-        except _Timeout:
-            ctx.check(False, clause='bounded-time', input=case, observed='> 20 CPU s', required='terminates')
-            break
-        finally:
+        for attempt in range(5):
             if _HANDLER:
-                signal.setitimer(signal.ITIMER_VIRTUAL, 0)
-        if f is not None:
+                signal.setitimer(signal.ITIMER_VIRTUAL, 20.0)
+            try:
+                f, at = _run_long(case)
+                if f is not None:
+                    small, f2 = dict(case, ops=case['ops'][:at + 1]), f
+                    if ctx._per_clause.get(f.clause, 0) < ctx.MAX_PER_CLAUSE:      # beyond that, repeats are only counted
+                        small = _shrink(small, f.clause)
+                        f2 = _replay_long(small)
+                        if f2 is None:
+                            small, f2 = dict(case, ops=case['ops'][:at + 1]), f
+            except _Timeout:
+                ctx.check(False, clause='bounded-time', input=case, observed='> 20 CPU s', required='terminates')
+                stop = True
+                break
+            finally:
+                if _HANDLER:
+                    signal.setitimer(signal.ITIMER_VIRTUAL, 0)
+            if f is None:
+                break
             ctx.check(False, clause=f2.clause, input=small, observed=f2.observed, required=f2.required)
             failures += 1
-            if failures >= 8:
-                ctx.note('sampling stopped after 8 failing histories')
+            if at < 0 or failures >= 3000:
+                stop = failures >= 3000
                 break
+            # go on with the same history without the call that violated the property
+            case = dict(case, ops=case['ops'][:at] + case['ops'][at + 1:])
+        if stop and failures >= 3000:
+            ctx.note('sampling stopped after 3000 violations')
     ctx.exhausted = None
     ctx.note('random sampling (seeded): %d histories in this shard' % done)
